@@ -34,6 +34,8 @@ def leaf(i: int) -> Dict[str, Any]:
 def ns(i: int, sub: Dict[str, Any], **kw: Any) -> tuple:
     attrs = dict(NS_DEFAULT, help=f'nh{i}', required=bool((i + 1) % 2))
     attrs.update(kw)
+    if kw.get('valid_type') is not None and 'dynamic' not in kw:
+        attrs['dynamic'] = True  # what setting a valid_type does; (valid_type, dynamic=False) has to be asked for explicitly
     return ('ns', attrs, sub)
 
 
@@ -47,12 +49,20 @@ TREES: Dict[str, Dict[str, Any]] = {
     'T3': {'p': ns(1, {'q': ns(2, {'r': ns(3, {'s': leaf(1)}), 'rs': leaf(2)}), 'qr': leaf(3)}),
            'pq': ns(4, {'r': leaf(4), 'e': ns(5, {})}), 'p_q': leaf(5)},
 }
+# T4: namespaces that have a valid_type but were made non-dynamic again afterwards (what e.g. AiiDA does with the inputs
+# namespace of every process), at the top level and nested
+TREES['T4'] = {'a': leaf(1), 'n': ns(1, {'x': leaf(2)}, valid_type=int, dynamic=False),
+               'm': ns(2, {'y': leaf(3), 'k': ns(3, {}, valid_type=str, dynamic=False)}, valid_type=int)}
+TOP_ATTRS: Dict[str, Dict[str, Any]] = {'T4': {'valid_type': int, 'dynamic': False}}
 DEST_PRE = {'zz_keep': leaf(9), 'zn_keep': ns(9, {'k': leaf(10)})}
 NAMESPACES = (None, 't', 't.u')
 OPTION_SETS: Tuple[Dict[str, Any], ...] = (
     {}, {'required': False, 'help': 'override-help'}, {'dynamic': True, 'populate_defaults': False},
     {'valid_type': str}, {'required': False, 'dynamic': True, 'help': 'oh', 'valid_type': int, 'populate_defaults': False},
+    {'dynamic': False},
 )
+# ({'dynamic': False, 'valid_type': T} is left out: the option says non-dynamic, the documented effect of setting a
+#  valid_type says dynamic - the statement does not rank them)
 
 
 def paths(tree: Dict[str, Any], prefix: str = '') -> List[str]:
@@ -111,8 +121,8 @@ def expected(tree: Dict[str, Any], top_attrs: Dict[str, Any], include: Any, excl
     selected = select(tree, include, exclude)
     attrs = dict(top_attrs)
     attrs.update(options)
-    if attrs.get('valid_type') is not None:
-        attrs['dynamic'] = True if 'dynamic' not in options or options.get('valid_type') is not None else attrs['dynamic']
+    if options.get('valid_type') is not None and 'dynamic' not in options:
+        attrs['dynamic'] = True  # the documented effect of setting a valid_type; otherwise the source's / the option's value
     if namespace is None:
         dest.update(selected)
         return {'attrs': attrs, 'tree': dest}
@@ -133,6 +143,7 @@ def build(namespace: pports.PortNamespace, tree: Dict[str, Any], port_cls: type)
     for name, node in tree.items():
         if isinstance(node, tuple):
             sub = pports.PortNamespace(name, **node[1])
+            sub.dynamic = node[1]['dynamic']  # (the constructor's valid_type makes it dynamic; the description decides)
             namespace[name] = sub
             build(sub, node[2], port_cls)
         else:
@@ -161,8 +172,6 @@ def normalise(tree: Dict[str, Any]) -> Dict[str, Any]:
     for name, node in tree.items():
         if isinstance(node, tuple):
             attrs = dict(node[1])
-            if attrs.get('valid_type') is not None:
-                attrs['dynamic'] = True
             out[name] = ('ns', attrs, normalise(node[2]))
         else:
             out[name] = dict(node)
@@ -193,6 +202,9 @@ def make_source_class(tree_name: str, kind: str) -> type:
             build(top, tree, pports.InputPort if kind == 'inputs' else pports.OutputPort)
             top.help = 'src-top-help'
             top.required = True
+            for attr in ('valid_type', 'dynamic'):
+                if attr in TOP_ATTRS.get(tree_name, {}):
+                    setattr(top, attr, TOP_ATTRS[tree_name][attr])
 
     Source.__name__ = f'Source_{tree_name}_{kind}'
     return Source
@@ -210,6 +222,9 @@ def check_case(case: tuple) -> List[dict]:
     port_cls = pports.OutputPort if kind == 'outputs' else pports.InputPort
     if kind == 'absorb':
         source = pports.PortNamespace('src', help='src-top-help', required=True)
+        for attr in ('valid_type', 'dynamic'):
+            if attr in TOP_ATTRS.get(tree_name, {}):
+                setattr(source, attr, TOP_ATTRS[tree_name][attr])
         build(source, tree, port_cls)
         destination = pports.PortNamespace('dst')
         build(destination, DEST_PRE, port_cls)
@@ -226,6 +241,7 @@ def check_case(case: tuple) -> List[dict]:
            include=list(include) if include is not None else None, namespace_options=dict(options))
         source = src_cls.spec().inputs if kind == 'inputs' else src_cls.spec().outputs
     top_attrs = dict(NS_DEFAULT, help='src-top-help', required=True)
+    top_attrs.update(TOP_ATTRS.get(tree_name, {}))
     want = expected(tree, top_attrs, include, exclude, namespace, options)
     want_tree = normalise(want['tree'])
     got_tree = describe(destination)
@@ -241,8 +257,6 @@ def check_case(case: tuple) -> List[dict]:
                  'got': repr(got_tree)[:600], 'want': repr(want_tree)[:600]})
     if namespace is None and want['attrs'] is not None:
         attrs = dict(want['attrs'])
-        if attrs.get('valid_type') is not None:
-            attrs['dynamic'] = True
         if ns_attrs(destination) != attrs:
             violate('namespace-properties', feats, {'got': ns_attrs(destination), 'want': attrs, 'options': repr(options)})
     # independence, both directions
